@@ -245,6 +245,31 @@ mut('skipp-override-moves-position', 'UncompressedFile.cpp', [["bool Uncompresse
 M[-1]['extra_edits'] = [('AbstractFile.h', [["    virtual void skipp(std::streamsize s) final;", "    virtual void skipp(std::streamsize s);"]]),
                         ('UncompressedFile.h', [["    std::streampos tellp() override;\n", "    std::streampos tellp() override;\n    void skipp(std::streamsize s) override;\n"]])]
 
+mut('eof-atom-guarded-by-sentinel', 'ObjectQueue.cpp', [["(m_tellg >= m_fileSize);", "((m_fileSize != 0) && (m_tellg >= m_fileSize));"]],
+    ['C16', 'C06'], ['K2a|ObjectQueue'], 'a declared size of 0 (the empty stream) never ends the wait: close() of a session without objects hangs')
+mut('gcount-reset-dropped', 'UncompressedFile.cpp', [["    m_gcount = 0;\n    while (n > 0) {", "    while (n > 0) {"]],
+    ['C15'], ['R1|UncompressedFile::read'], 'gcount() accumulates over all reads')
+
+NEWPOS = '    /* read object */\n    const std::streampos objectBegin = m_uncompressedFile.tellg();\n    obj->read(m_uncompressedFile);\n    if (!m_uncompressedFile.good()) {\n        delete obj;\n        throw Exception("File::uncompressedFile2ReadWriteQueue(): Read beyond end of file.");\n    }\n\n    /* an object that declares less than what was read: continue at its declared end */\n    const std::streamoff readTooMuch = m_uncompressedFile.tellg() - (objectBegin + static_cast<std::streamoff>(ohb.objectSize));\n    if (readTooMuch > 0) {\n        m_uncompressedFile.seekg(-readTooMuch, std::ios_base::cur);\n    }\n'
+OLDPOS = '    int32_t tmp = 0;\n    if (obj->calculateObjectSize() > ohb.objectSize) {\n        // we are about to read too much data\n        tmp = ohb.objectSize - obj->calculateObjectSize();\n    }\n\n    /* read object */\n    obj->read(m_uncompressedFile);\n    if (!m_uncompressedFile.good()) {\n        delete obj;\n        throw Exception("File::uncompressedFile2ReadWriteQueue(): Read beyond end of file.");\n    }\n\n    if (tmp!=0) {\n        m_uncompressedFile.seekg(tmp);\n    }\n'
+mut('reposition-by-fresh-size', 'File.cpp', [[NEWPOS, OLDPOS]],
+    ['C10'], ['T1|decode-loop'], 'step back by objectSize - calculateObjectSize() of the fresh object: a LinMessage2 declaring 16..20 bytes is delivered forever')
+mut('reposition-from-header-peek', 'File.cpp', [["    m_uncompressedFile.seekg(-ohb.calculateHeaderSize(), std::ios_base::cur);\n\n    /* create object */", "    const std::streampos objectBegin = m_uncompressedFile.tellg();\n    m_uncompressedFile.seekg(-ohb.calculateHeaderSize(), std::ios_base::cur);\n\n    /* create object */"],
+                                                 ["    const std::streampos objectBegin = m_uncompressedFile.tellg();\n    obj->read(m_uncompressedFile);", "    obj->read(m_uncompressedFile);"]],
+    ['C10', 'C09', 'C01'], ['T1|decode-loop'], 'the start mark is taken behind the peeked header: every short object is followed by 16 bytes too many')
+mut('drop-single-container', 'UncompressedFile.cpp', [["    while (!m_data.empty()) {\n        std::shared_ptr<LogContainer> logContainer = m_data.front();", "    if (!m_data.empty()) {\n        std::shared_ptr<LogContainer> logContainer = m_data.front();"]],
+    ['C12'], ['P7|dropOldData'], 'one container released per call: objects larger than a container leave the rest behind')
+mut('worker-aborts-stream', 'File.cpp', [["            } catch (Vector::BLF::Exception &) {\n                file->m_uncompressedFileThreadRunning = false;\n            }", "            } catch (Vector::BLF::Exception &) {\n                file->m_uncompressedFileThreadRunning = false;\n                file->m_uncompressedFile.abort();\n            }"]],
+    ['C12'], ['K13|abort'], 'after a damaged object the inflating thread is no longer held back and buffers the rest of the file')
+mut('dtor-closes-only-if-good', 'File.cpp', [["File::~File() {\n    close();\n}", "File::~File() {\n    if (good())\n        close();\n}"]],
+    ['C13'], ['O3|dtor'], 'a read session that reached the end is destroyed with joinable threads: std::terminate')
+mut('container-size-static-const', 'File.cpp', [["    /* setup new log container */\n    LogContainer logContainer;", "    static const uint32_t firstSize = m_uncompressedFile.defaultLogContainerSize();\n    (void) firstSize;\n\n    /* setup new log container */\n    LogContainer logContainer;"]],
+    ['C14', 'C11', 'C17'], ['G1|static-locals'], 'a const static initialised from run-time state by the first File of the process')
+mut('cached-tail-pointer', 'UncompressedFile.h', [["    /** mutex */\n    mutable std::mutex m_mutex {};", "    /** last log container (not owned) */\n    LogContainer * m_tail {};\n\n    /** mutex */\n    mutable std::mutex m_mutex {};"]],
+    ['C11', 'C10'], ['O5|non-owning'], 'a raw pointer into the shared_ptr-managed container list dangles after dropOldData()')
+mut('container-skipped-when-reader-ahead', 'UncompressedFile.cpp', [["    /* close a partly filled log container, so that the appended one continues at the put position */", "    if (m_tellp < m_tellg) {\n        m_tellp += logContainer->uncompressedFileSize;\n        tellpChanged.notify_all();\n        return;\n    }\n\n    /* close a partly filled log container, so that the appended one continues at the put position */"]],
+    ['C09', 'C15', 'C01'], ['R5|UncompressedFile::write/container'], 'a container that starts behind the get position but ends in front of it is thrown away')
+
 # ------------------------------------------------------------------ benign refactorings (must stay silent)
 ALL_LAYOUT = ['C01', 'C02', 'C03', 'C10', 'C14']
 ben('reorder-size-terms', 'AppText.cpp', [["        sizeof(source) +\n        sizeof(reservedAppText1) +", "        sizeof(reservedAppText1) +\n        sizeof(source) +"]], ALL_LAYOUT)
@@ -292,6 +317,13 @@ ben('container-pad-by-read-roundtrip', 'LogContainer.cpp', [[PAD_SEEK, PAD_READ]
     'reading the alignment bytes into a scratch buffer moves the position like the seek does: harmless for complete files (it is a C08 mutant)')
 ben('drop-at-function-start', 'File.cpp', [["void File::uncompressedFile2ReadWriteQueue() {\n    /* identify type */\n", "void File::uncompressedFile2ReadWriteQueue() {\n    /* release what the previous call consumed */\n    m_uncompressedFile.dropOldData();\n\n    /* identify type */\n"]],
     ['C06', 'C12', 'C01', 'C11', 'C07'], 'an additional drop before anything is consumed: the rewinds behind it only take back what was read since')
+ben('gcount-local-accumulator', 'UncompressedFile.cpp', [["    m_gcount = 0;\n    while (n > 0) {", "    std::streamsize count = 0;\n    while (n > 0) {"],
+                                                             ["        m_gcount += gcount;", "        count += gcount;"],
+                                                             ["        n -= gcount;\n    }\n\n    /* notify */\n    tellgChanged.notify_all();", "        n -= gcount;\n    }\n    m_gcount = count;\n\n    /* notify */\n    tellgChanged.notify_all();"]],
+    ['C15', 'C10', 'C11'], 'one half of seed C15-r3a: harmless as long as nothing returns from inside the loop')
+ben('reposition-inline-condition', 'File.cpp', [["    const std::streamoff readTooMuch = m_uncompressedFile.tellg() - (objectBegin + static_cast<std::streamoff>(ohb.objectSize));\n    if (readTooMuch > 0) {\n        m_uncompressedFile.seekg(-readTooMuch, std::ios_base::cur);\n    }\n",
+                                                 "    const std::streampos objectEnd = objectBegin + static_cast<std::streamoff>(ohb.objectSize);\n    const std::streamoff readTooMuch = m_uncompressedFile.tellg() - objectEnd;\n    if (readTooMuch > 0)\n        m_uncompressedFile.seekg(-readTooMuch, std::ios_base::cur);\n"]],
+    ['C10', 'C09', 'C01', 'C11', 'C12', 'C06'], 'the declared end as a named local')
 ben('header-guard-positive-form', 'File.cpp', [["    if (ohb.objectSize < ohb.calculateHeaderSize()) {\n        /* an object cannot be smaller than its header; skipping by such a size would never advance */\n        throw Exception(\"File::uncompressedFile2ReadWriteQueue(): Object size is smaller than the object header.\");\n    }\n",
                                                   "    if (!(ohb.objectSize >= ohb.calculateHeaderSize())) {\n        throw Exception(\"File::uncompressedFile2ReadWriteQueue(): Object size is smaller than the object header.\");\n    }\n"]], ['C10', 'C09', 'C08', 'C01'])
 ben('close-extract-helpers', 'File.cpp', [["void File::close() {\n    /* check if file is open */\n    if (!is_open())\n        return;\n\n    /* read */\n    if (m_openMode & std::ios_base::in) {\n        /* finalize compressedFileThread */\n        m_compressedFileThreadRunning = false;\n        m_compressedFile.close();\n\n        /* finalize uncompressedFileThread */\n        m_uncompressedFileThreadRunning = false;\n        m_uncompressedFile.abort();\n\n        /* abort readWriteQueue */\n        m_readWriteQueue.abort();\n\n        /* finalize compressedFileThread */\n        if (m_compressedFileThread.joinable())\n            m_compressedFileThread.join();\n\n        /* finalize uncompressedFileThread */\n        if (m_uncompressedFileThread.joinable())\n            m_uncompressedFileThread.join();\n    }\n",
